@@ -137,7 +137,7 @@ func runInTree(c EVMCase, deployed bool) (res *result) {
 	}
 	cfg := iparams.AllEthashProtocolChanges
 	if deployed {
-		cfg = iparams.MainnetChainConfig
+		cfg = deployedChainConfig()
 	}
 	tr := &iTracer{c: res.tr}
 	evm := ivm.NewEVM(ctx, st, cfg, ivm.Config{EVMGasLimit: evmGasLimit, Debug: true, Tracer: tr})
